@@ -35,6 +35,8 @@ def _emptiness(out, pred: AArr, ref: AArr, arrs):
                 if re_ is not None and re_ != d:
                     return None
                 re_ = d
+        elif isinstance(v, Unknown) and v.tag.startswith("dtype-fact"):
+            continue  # a fast path selected by the input's dtype: an input class, checked like any other
         else:
             return None
     return pe, re_
